@@ -105,6 +105,23 @@ def run(ck):
             esc = [c for c in H.calls_in(ps['body']) if H.is_call_to(c, 'unescape_char')]
             ok = len(esc) == 1 and any(c.get('m') in ('ok_or_else', 'ok_or') for c in H.calls_in(ps['body']))
             ck.ob('R3.1', 'bad-escape-is-parse-error', ok, L.loc(esc[0]) if esc else '', 'unescape_char(s).ok_or_else(ParseError)?')
+            # there is no way round the decoder: every Ok(..) of parse_string hands out the buffer the per-child loop fills, and the loop
+            # runs over all named children (a fast path that copies the text of a lone child would copy a lone escape sequence raw)
+            oks = [H.strip_refs(v) for v in H.return_exprs(ps['body']) if H.strip_refs(v).get('k') == 'Call' and (H.strip_refs(v).get('def') or '').endswith('Result::Ok')]
+            lp = next((n for n in walk(ps['body']) if n.get('k') == 'For' and m2 is not None and any(x is m2 for x in walk(n))), None)
+            pushes = [c for c in H.calls_in(ps['body']) if c.get('m') in ('push_str', 'push')]
+            bufs = {(H.root_local(c['recv']) or {}).get('hid') for c in pushes}
+            ok = bool(oks) and lp is not None and len(bufs) == 1 and all(H.strip_refs(o['args'][0]).get('k') == 'Path' and H.strip_refs(o['args'][0]).get('hid') in bufs for o in oks)
+            why = 'every Ok(..) returns the buffer filled by the loop over the children'
+            if ok:
+                it = pp(lp['iter'], maxlen=80)
+                ok = 'named_children' in it and not re.search(r'\b(skip|take|filter|step_by|rev|skip_while|take_while)\b', it) and \
+                    all(any(x is c for x in walk(lp)) for c in pushes)
+                why = 'every Ok(..) returns the buffer filled by the loop over %s' % it
+            else:
+                why = 'parse_string has a result that does not come out of the decoding loop (%s): escape sequences on that path are handed on undecoded' % \
+                    [pp(o, maxlen=50) for o in oks if not (H.strip_refs(o['args'][0]).get('k') == 'Path' and H.strip_refs(o['args'][0]).get('hid') in bufs)][:2]
+            ck.ob('R3.1', 'no-way-round-the-decoder', ok, L.loc(ps['body']), why)
 
     # ---- R3.2 radix ----------------------------------------------------------------------------
     sr = L.fn('qmlast::astutil::strip_radix_prefix')
